@@ -231,7 +231,7 @@ def gen(seed, run, sub="pipe", tier="quick"):
                 "drop_while_booting": False, "resend_with_ok": True,
                 "dev_eol": r.choice(["\n", "\n", "\r\n"])},
         "stmts": stmts, "replies": replies, "faults": faults, "ops": ops, "draws": draws, "eol": "\n",
-        "readings": readings, "max_steps": 150000, "slow": slow,
+        "readings": readings, "max_steps": 300000, "slow": slow,
         "sched": sched,
     }
 
